@@ -19,7 +19,99 @@ func (w *Proxy) checkAll() {
 	w.checkC01()
 	w.checkC02()
 	w.checkC03()
+	w.checkC09Idle()
 	w.checkC10Idle()
+}
+
+type poolBooks interface {
+	VerifPoolBooks() (idle int, idleClosed int, total uint64)
+}
+
+func (w *Proxy) poolProto() string {
+	if w.P.Proto == "http1" {
+		return "Http1"
+	}
+	return w.P.Proto
+}
+
+func (w *Proxy) liveUp(addr string) int {
+	n := 0
+	for _, c := range w.N.Conns {
+		if c.Role == "up" && c.Tag == addr && c.LiveForMosn() {
+			n++
+		}
+	}
+	return n
+}
+
+// ---- C09: pool books vs. the network's truth, at every quiescent point ----
+func (w *Proxy) checkC09Quiescent() {
+	s := w.S
+	for _, a := range w.hostAddrs {
+		pb, ok := cluster.VerifConnPool(w.poolProto(), a).(poolBooks)
+		if !ok {
+			continue
+		}
+		idle, idleClosed, total := pb.VerifPoolBooks()
+		live := w.liveUp(a)
+		w.Stats["c09_book_checks"]++
+		if idleClosed > 0 {
+			s.Violate("C09", "closed_client_in_idle_list", "pool %s: %d closed client(s) sit in the idle list", a, idleClosed)
+		}
+		if int64(total) < 0 || total > 1<<40 {
+			s.Violate("C09", "total_underflow", "pool %s: total client count %d", a, total)
+			continue
+		}
+		if idle > int(total) {
+			s.Violate("C09", "idle_exceeds_total", "pool %s: idle=%d total=%d", a, idle, total)
+		}
+		// every client the pool counts is an open connection or a connect in progress
+		if int(total) != live+w.N.PendingDials(a) {
+			s.Violate("C09", "total_vs_network", "pool %s: total client count %d, but the network has %d live connection(s) and %d connect(s) in progress (idle=%d)", a, total, live, w.N.PendingDials(a), idle)
+		}
+	}
+}
+
+func (w *Proxy) checkC09Idle() {
+	s := w.S
+	for _, u := range w.h1ups {
+		if u.MaxInFlight > 1 || u.ReqAfterAbandon > 0 {
+			s.Violate("C09", "pingpong_not_exclusive", "upstream connection c%d to %s received a request while the previous exchange on it had not completed (%d times)", u.Conn.ID, u.Host, u.ReqAfterAbandon)
+		}
+	}
+	for _, a := range w.hostAddrs {
+		pb, ok := cluster.VerifConnPool(w.poolProto(), a).(poolBooks)
+		if !ok {
+			continue
+		}
+		idle, _, total := pb.VerifPoolBooks()
+		if idle != int(total) {
+			s.Violate("C09", "lease_outstanding_at_idle", "pool %s at idle: total=%d idle=%d — %d connection(s) are neither idle nor closed although no request is in flight", a, total, idle, int(total)-idle)
+		}
+	}
+}
+
+// ---- C10: never negative, at every quiescent point ----
+func (w *Proxy) checkC10Quiescent() {
+	s := w.S
+	snap := cluster.GetClusterMngAdapterInstance().ClusterManager.GetClusterSnapshot(context.Background(), "c0")
+	if snap == nil {
+		return
+	}
+	rm := snap.ClusterInfo().ResourceManager()
+	for name, r := range map[string]types.Resource{"requests": rm.Requests(), "pending_requests": rm.PendingRequests(), "retries": rm.Retries(), "connections": rm.Connections()} {
+		if c := r.Cur(); c < 0 {
+			s.Violate("C10", "resource_negative:"+name, "breaker resource %s = %d", name, c)
+		}
+	}
+	ls := metrics.NewListenerStats("l0")
+	cs := metrics.NewClusterStats("c0")
+	for name, v := range map[string]int64{"listener.request_active": ls.Counter(metrics.DownstreamRequestActive).Count(), "listener.connection_active": ls.Counter(metrics.DownstreamConnectionActive).Count(),
+		"cluster.request_active": cs.Counter(metrics.UpstreamRequestActive).Count(), "cluster.connection_active": cs.Counter(metrics.UpstreamConnectionActive).Count()} {
+		if v < 0 {
+			s.Violate("C10", "gauge_negative:"+name, "%s = %d", name, v)
+		}
+	}
 }
 
 // ---- C01: forwarding fidelity (xprotocol, byte level) ----
